@@ -335,6 +335,15 @@ func cmdCheck(propID, tier string) int {
 		kf := knownFor(known, propID, cls)
 		fmt.Printf("KNOWN-FINDING: property=%s class=%s hits=%d %s\n", propID, cls, knownHits[cls], kf.What)
 	}
+	if len(unknown) > 0 {
+		cc := map[string]int{}
+		for _, h := range unknown {
+			cc[h.class]++
+		}
+		for _, c := range sortedKeys(cc) {
+			fmt.Printf("  violation-class %s: %d\n", c, cc[c])
+		}
+	}
 	ev := writeEvidence(p, tier, batch, agg, time.Since(t0), len(unknown), knownHits)
 	// a required probe stuck at zero means the workload does not reach the obligation: machinery problem
 	if exit == 0 {
